@@ -38,13 +38,16 @@ STATUS
     resolved, every dust fail and every dangling/breach fail was delivered, every outgoing htlc
     contract got its upstream resolution.  `same_outcome_of_terminated_runs`: two terminated runs
     on the same chain resolved the same contracts and gave every htlc the same resolution.
-    NOT proved: termination of the run with stops (fails: F3b witness; under the restrictions it
-    additionally needs an ordering assumption on the environment, see notes), equality of the
-    terminal arbitrator state beyond "fully closed", reports.
+    Termination of the run with stops fails in general (F3b witness); ON THE FRAGMENT
+    `outsideWindows` it is proved (round 5, end of this file): `fair_run_terminates`,
+    `fair_run_terminates_after_facts`, `same_outcome_fair` (same outcome WITHOUT a "terminated"
+    hypothesis), and `outcome_determined` (the set of upstream resolutions at termination is a
+    function of the scenario and the observed spends only).
+    NOT proved: equality of contract reports / final incoming-dust outcomes, exactly-once delivery.
   * `no_progress_lost_partial` (under `noResInClosed`) and `checkpoint_monotone`; the full
     statement FAILS (`no_progress_lost_fails`, finding F3).
 -/
-import LndModel.C13.Upstream
+import LndModel.C13.Progress2
 
 namespace LndModel.C13.Props
 open LndModel.C13
@@ -489,5 +492,280 @@ example : stoppedOk.chan.fullyClosed = true ∧ stoppedOk.crashes = 2 ∧
 
 example : Reach specFar noStopInWindows stoppedOk :=
   run_reach_of _ _ _ stopOkB_sound _ _ .init (by decide)
+
+
+/-! ## progress: every fair run outside the defect windows terminates (round 5)
+
+FAIRNESS.  A run of the micro-step LTS is *fair* when (1) it contains finitely many `crash`
+actions, (2) the chain oracle eventually delivers every fact the scenario waits for
+(`Complete sp facts`: the close is seen, every contract output is spent, every second-level output
+is swept, every expiry height is reached, the breach is handled), and (3) an action of the node
+(`main`, `res k`, `resAlt k`) that stays enabled is eventually taken.  The theorems below do not
+need infinite traces: for EVERY state reachable under `outsideWindows` (any interleaving, any fact
+order, any number of stops outside the windows of F3 / F3c / F3b / F2-via-stop) there is a
+continuation by node actions only, of length at most `mu`, that ends with the channel marked fully
+resolved and an empty log; `progress_step` is the measure step (some enabled node action strictly
+decreases `mu`).  `mu` is bounded by `15 + 10·|spec contracts| + 10·|log|`, a bound that does not
+depend on volatile state, so a stop (which leaves the log alone) restores at most that bound.
+
+NOT covered (stated, not hidden): that EVERY enabled node action decreases `mu` (the steps of the
+key-less anchor resolver do not change `mu`; they are harmless but not counted), and progress of
+the utxo nursery itself (the arbitrator only waits for the sweep fact). -/
+
+/-- PROGRESS (liveness on the fragment).  From every state reachable outside the defect windows,
+    once the chain facts are complete, at most `mu sp s` node actions lead to: channel marked fully
+    resolved, log empty, every stateful contract resolved.  No stop is needed and none is taken. -/
+theorem fair_run_terminates (sp : Spec) (hce : sp.CoopEmpty) (hk : sp.KeysNodup) (s : Sys)
+    (h : Reach sp (outsideWindows sp) s) (hcomp : Complete sp s.facts) :
+    ∃ acts : List Action,
+      acts.length ≤ 15 + 10 * sp.contracts.length + 10 * s.log.contracts.length ∧
+      (∀ a ∈ acts, a.isNode = true) ∧
+      Reach sp (outsideWindows sp) (run sp s acts) ∧
+      (run sp s acts).chan.fullyClosed = true ∧ (run sp s acts).log.contracts = [] ∧
+      (∀ c ∈ sp.contracts, c.kind.persisted = true → c.key ∈ (run sp s acts).resolvedKeys) ∧
+      (run sp s acts).facts = s.facts := by
+  have hcoop := coopClean_of_empty hce
+  obtain ⟨acts, hlen, hall, hr, hfin, hf⟩ := progress_bounded hcoop hk (mu sp s) s h hcomp (Nat.le_refl _)
+  have hw : Reach sp noStopInWindows (run sp s acts) := Reach.mono (outsideWindows_windows sp) hr
+  have hfc := (reach_invU hce hw).2.k9 hfin
+  refine ⟨acts, Nat.le_trans hlen (mu_le sp s), hall, hr, hfc, (reach_inv hr).done (Or.inr hfc), ?_, hf⟩
+  exact resolved_last_partial sp hcoop _ (Reach.mono noStopInWindows_closed hw) hfc
+
+/-- a stop restores at most the state-independent bound: `mu` after `Start` is bounded by the same
+    `15 + 10·|contracts| + 10·|log|` (a stop leaves the log alone), so finitely many stops delay
+    termination by a bounded number of node actions each. -/
+theorem crash_restores_bound (sp : Spec) (s : Sys) :
+    mu sp (restart s) ≤ 15 + 10 * sp.contracts.length + 10 * s.log.contracts.length :=
+  mu_le sp (restart s)
+
+/-- … and the chain oracle may deliver the missing facts at any time: from ANY reachable state of
+    the fragment, for any list of further facts that completes the chain, delivering them and then
+    at most `15 + 10·|contracts| + 10·|log|` node actions terminates the run. -/
+theorem fair_run_terminates_after_facts (sp : Spec) (hce : sp.CoopEmpty) (hk : sp.KeysNodup) (s : Sys)
+    (h : Reach sp (outsideWindows sp) s) (fs : List Fact)
+    (hcomp : Complete sp (fs.foldl Facts.add s.facts)) :
+    ∃ acts : List Action,
+      acts.length ≤ 15 + 10 * sp.contracts.length + 10 * s.log.contracts.length ∧
+      (∀ a ∈ acts, a.isNode = true) ∧
+      Reach sp (outsideWindows sp) (run sp s (fs.map .fact ++ acts)) ∧
+      (run sp s (fs.map .fact ++ acts)).chan.fullyClosed = true ∧
+      (run sp s (fs.map .fact ++ acts)).log.contracts = [] := by
+  obtain ⟨hr, hf, hl⟩ := run_facts (sp := sp) fs s h
+  obtain ⟨acts, hlen, hall, hr', hfc, hemp, _, _⟩ :=
+    fair_run_terminates sp hce hk _ hr (by rw [hf]; exact hcomp)
+  rw [hl] at hlen
+  exact ⟨acts, hlen, hall, by rw [run_append]; exact hr', by rw [run_append]; exact hfc,
+    by rw [run_append]; exact hemp⟩
+
+/-- SAME OUTCOME without a "terminated" hypothesis: any two states of the fragment (e.g. a run with
+    stops and the uninterrupted run, at any point) that have seen complete and agreeing chains can
+    both be continued by node actions to termination, and the terminated runs resolved the same
+    contracts and gave every htlc the same upstream resolution. -/
+theorem same_outcome_fair (sp : Spec) (hce : sp.CoopEmpty) (hk : sp.KeysNodup) (hd : sp.IdxDisjoint)
+    (s₁ s₂ : Sys) (h₁ : Reach sp (outsideWindows sp) s₁) (h₂ : Reach sp (outsideWindows sp) s₂)
+    (hc₁ : Complete sp s₁.facts) (hc₂ : Complete sp s₂.facts)
+    (hchain : ∀ k x y, s₁.facts.spendOf k = some x → s₂.facts.spendOf k = some y → x = y) :
+    ∃ a₁ a₂ : List Action,
+      (∀ a ∈ a₁ ++ a₂, a.isNode = true) ∧
+      (run sp s₁ a₁).chan.fullyClosed = true ∧ (run sp s₂ a₂).chan.fullyClosed = true ∧
+      (∀ c ∈ sp.contracts, c.kind.persisted = true →
+        (c.key ∈ (run sp s₁ a₁).resolvedKeys ∧ c.key ∈ (run sp s₂ a₂).resolvedKeys)) ∧
+      (∀ c ∈ sp.contracts, c.kind.isOut = true →
+        ∃ b, (c.idx, b) ∈ (run sp s₁ a₁).msgs ∧ (c.idx, b) ∈ (run sp s₂ a₂).msgs) ∧
+      (∀ i ∈ sp.dustFails ++ closedFails sp,
+        (i, false) ∈ (run sp s₁ a₁).msgs ∧ (i, false) ∈ (run sp s₂ a₂).msgs) := by
+  obtain ⟨a₁, _, n₁, r₁, f₁, _, _, e₁⟩ := fair_run_terminates sp hce hk s₁ h₁ hc₁
+  obtain ⟨a₂, _, n₂, r₂, f₂, _, _, e₂⟩ := fair_run_terminates sp hce hk s₂ h₂ hc₂
+  have w₁ := Reach.mono (outsideWindows_windows sp) r₁
+  have w₂ := Reach.mono (outsideWindows_windows sp) r₂
+  obtain ⟨x, y, z⟩ := same_outcome_of_terminated_runs sp hce hk hd _ _ w₁ w₂ f₁ f₂
+    (by rw [e₁, e₂]; exact hchain)
+  refine ⟨a₁, a₂, ?_, f₁, f₂, x, y, z⟩
+  intro a ha
+  rcases List.mem_append.mp ha with ha | ha
+  · exact n₁ a ha
+  · exact n₂ a ha
+
+/-! ## the upstream outcome is a function of (scenario, chain facts) only -/
+
+/-- the two lists of arbitrator-issued fails are used for the close kinds they belong to. -/
+def ListsWF (sp : Spec) : Prop :=
+  (sp.close = .breach → sp.danglingFails = []) ∧ (sp.close ≠ .breach → sp.breachFails = [])
+
+/-- the upstream resolutions a terminated run has delivered, computed from the scenario and the
+    observed spends alone. -/
+def expectedMsgs (sp : Spec) (f : Facts) : List (Nat × Bool) :=
+  failMsgs sp.dustFails ++ failMsgs (closedFails sp) ++
+    (sp.contracts.filter (·.kind.isOut)).filterMap
+      (fun c => (f.spendOf c.key).map (fun w => (c.idx, decide (w = SpendKind.remote))))
+
+/-- at termination (every schedule outside the two windows of `noStopInWindows`) the SET of
+    delivered upstream resolutions is exactly `expectedMsgs sp facts`.  (Set, not multiset: the
+    real code may deliver the same resolution again after a stop; the monitor accepts duplicates.) -/
+theorem outcome_determined (sp : Spec) (hce : sp.CoopEmpty) (hk : sp.KeysNodup) (hd : sp.IdxDisjoint)
+    (hwf : ListsWF sp) (s : Sys) (h : Reach sp noStopInWindows s) (hc : s.chan.fullyClosed = true) :
+    ∀ m, m ∈ s.msgs ↔ m ∈ expectedMsgs sp s.facts := by
+  obtain ⟨_, hdust, hclosed, hout⟩ := same_outcome_partial sp hce hk s h hc
+  intro m
+  constructor
+  · intro hm
+    rcases reach_msgsOk h m hm with ⟨hb, hl⟩ | ⟨c, hcm, ho, hi, hs⟩
+    · obtain ⟨i, b⟩ := m
+      simp only at hb hl
+      subst hb
+      simp only [expectedMsgs, List.mem_append, failMsgs, List.mem_map, Prod.mk.injEq, and_true,
+        exists_eq_right]
+      left
+      simp only [listFails, List.mem_append] at hl
+      unfold closedFails
+      by_cases hbr : sp.close = .breach
+      · simp only [hbr, beq_self_eq_true, if_true]
+        rcases hl with (hl | hl) | hl
+        · exact Or.inl hl
+        · rw [hwf.1 hbr] at hl; simp at hl
+        · exact Or.inr hl
+      · have : (sp.close == CloseKind.breach) = false := by simpa using hbr
+        simp only [this, Bool.false_eq_true, if_false]
+        rcases hl with (hl | hl) | hl
+        · exact Or.inl hl
+        · exact Or.inr hl
+        · rw [hwf.2 hbr] at hl; simp at hl
+    · obtain ⟨i, b⟩ := m
+      simp only at hi hs
+      subst hi
+      simp only [expectedMsgs, List.mem_append, List.mem_filterMap, List.mem_filter]
+      right
+      refine ⟨c, ⟨hcm, ho⟩, ?_⟩
+      rw [hs]
+      cases b <;> simp
+  · intro hm
+    simp only [expectedMsgs, List.mem_append, List.mem_filterMap, List.mem_filter] at hm
+    rcases hm with (hm | hm) | ⟨c, ⟨hcm, ho⟩, hs⟩
+    · simp only [failMsgs, List.mem_map] at hm
+      obtain ⟨i, hi, rfl⟩ := hm
+      exact hdust i hi
+    · simp only [failMsgs, List.mem_map] at hm
+      obtain ⟨i, hi, rfl⟩ := hm
+      exact hclosed i hi
+    · cases hw : s.facts.spendOf c.key with
+      | none => simp [hw] at hs
+      | some w =>
+        simp only [hw, Option.map_some, Option.some.injEq] at hs
+        subst hs
+        obtain ⟨b, hb⟩ := hout c hcm ho
+        have hj := reach_msgsOk h _ hb
+        rcases hj with ⟨_, hl⟩ | ⟨c', hcm', ho', hi', hs'⟩
+        · exact absurd hl (hd.notListed c hcm ho)
+        · have hkey := hd.inj c' hcm' c hcm ho' ho hi'
+          simp only at hs'
+          rw [hkey, hw] at hs'
+          have : b = decide (w = SpendKind.remote) := by
+            cases b <;> cases w <;> simp_all
+          rw [← this]; exact hb
+
+theorem filterMap_congr_aux {α β} {l : List α} {f g : α → Option β} (h : ∀ x ∈ l, f x = g x) :
+    l.filterMap f = l.filterMap g := by
+  induction l with
+  | nil => rfl
+  | cons x xs ih =>
+    simp only [List.filterMap_cons, h x (by simp)]
+    rw [ih (fun y hy => h y (by simp [hy]))]
+
+/-- two terminated runs (e.g. one with stops outside the windows and the uninterrupted one) that
+    observed the same spends delivered the same SET of upstream resolutions. -/
+theorem outcome_equal_of_same_chain (sp : Spec) (hce : sp.CoopEmpty) (hk : sp.KeysNodup)
+    (hd : sp.IdxDisjoint) (hwf : ListsWF sp) (s₁ s₂ : Sys)
+    (h₁ : Reach sp noStopInWindows s₁) (h₂ : Reach sp noStopInWindows s₂)
+    (hc₁ : s₁.chan.fullyClosed = true) (hc₂ : s₂.chan.fullyClosed = true)
+    (hchain : ∀ c ∈ sp.contracts, s₁.facts.spendOf c.key = s₂.facts.spendOf c.key) :
+    ∀ m, m ∈ s₁.msgs ↔ m ∈ s₂.msgs := by
+  intro m
+  rw [outcome_determined sp hce hk hd hwf s₁ h₁ hc₁, outcome_determined sp hce hk hd hwf s₂ h₂ hc₂]
+  have : expectedMsgs sp s₁.facts = expectedMsgs sp s₂.facts := by
+    unfold expectedMsgs
+    congr 1
+    apply filterMap_congr_aux
+    intro c hc
+    rw [hchain c (List.mem_filter.mp hc).1]
+  rw [this]
+
+/-! ## `CoopClean` in `resolved_last_partial` is necessary -/
+
+/-- an (ill-formed) scenario: cooperative close that nevertheless lists a commit-sweep contract. -/
+def specCoopDirty : Spec :=
+  { close := .coop, closeHeight := 100, delta := 5,
+    contracts := [ { key := 1000, kind := .cs, twoStage := false, idx := 0, expiry := 0 } ],
+    dustFails := [], danglingFails := [], breachFails := [], finalFails := [] }
+
+def coopRun : Sys := run specCoopDirty init [.main, .fact .close, .main, .main, .main, .main, .main]
+
+/-- without `CoopClean` the conclusion of `resolved_last_partial` fails, on a run without any stop:
+    the cooperative path goes straight to StateFullyResolved and never looks at contracts.  So the
+    hypothesis is a well-formedness condition on the scenario (a cooperative close pays everything
+    out directly; `CoopClean` holds for every scenario the harness builds), not a restriction of the
+    schedule, and it cannot be dropped. -/
+theorem resolved_last_needs_coopClean :
+    coopRun.chan.fullyClosed = true ∧ coopRun.crashes = 0 ∧ coopRun.resolvedKeys = [] ∧
+      (specCoopDirty.contracts.any fun c => c.kind.persisted) = true := by
+  decide
+
+example : Reach specCoopDirty noStopInClosed coopRun :=
+  Reach.mono noStopInWindows_closed (run_reach_of _ _ _ stopOkB_sound _ _ .init (by decide))
+
+/-! ## non-vacuity of the round-5 hypotheses -/
+
+example : ListsWF specFar := ⟨fun h => absurd h (by decide), fun _ => rfl⟩
+
+/-- complete chain facts for `specFar`. -/
+def factsFar : List Fact :=
+  [.height 141, .close, .breachDone, .spend1 1000 .ours, .spend1 10 .ours, .spend2 10, .spend2 1000]
+
+/-- a state of the fragment with two stops in it, then the chain completes. -/
+def midFar : Sys :=
+  run specFar init (toClosedFar ++
+    [.main, .main, .fact (.spend1 1000 .ours), .res 1000, .res 1000, .crash, .main,
+     .fact (.height 141), .res 10, .crash] ++ factsFar.map .fact)
+
+def okB (sp : Spec) (s : Sys) : Action → Bool
+  | .crash => s.log.state != .contractClosed &&
+      !(s.log.state == .default && s.log.hasCS && !s.chan.pendingClose) &&
+      s.log.contracts.all (fun p => !p.2.resolved)
+  | .res k =>
+    match s.active.find? (·.key == k) with
+    | some r => resRes sp s.facts r != .die
+    | none => true
+  | _ => true
+
+theorem okB_sound (sp : Spec) (s : Sys) (a : Action) (h : okB sp s a = true) : outsideWindows sp s a := by
+  cases a with
+  | crash =>
+    simp only [okB, Bool.and_eq_true, bne_iff_ne, ne_eq, Bool.not_eq_true', List.all_eq_true] at h
+    refine ⟨⟨h.1.1, ?_⟩, fun p hp => by simpa using h.2 p hp⟩
+    intro hh
+    have := h.1.2
+    simp [hh.1, hh.2.1, hh.2.2] at this
+  | res k =>
+    intro r hf
+    simp only [okB, hf, bne_iff_ne, ne_eq] at h
+    exact h
+  | _ => trivial
+
+example : Reach specFar (outsideWindows specFar) midFar :=
+  run_reach_of _ _ _ (okB_sound specFar) _ _ .init (by decide)
+
+example : Complete specFar midFar.facts := by
+  refine ⟨by decide, by decide, ?_⟩
+  intro c hc
+  simp only [specFar, specNear, List.mem_cons, List.not_mem_nil, or_false] at hc
+  rcases hc with rfl | rfl <;> decide
+
+example : midFar.chan.fullyClosed = false ∧ midFar.crashes = 2 ∧ midFar.pc = .adv := by decide
+
+/-- … and the continuation promised by `fair_run_terminates` for that state, spelled out. -/
+example :
+    let t := run specFar midFar [.main, .res 10, .res 10, .res 10, .main, .main, .main, .main]
+    t.chan.fullyClosed = true ∧ t.log.contracts = [] ∧ t.resolvedKeys = [10, 1000] ∧
+      t.msgs = [(20, false), (10, false)] ∧ mu specFar midFar ≤ 45 := by
+  decide
 
 end LndModel.C13.Props
